@@ -1250,6 +1250,32 @@ impl FatVolume {
         Ok(())
     }
 
+    /// Marks every cluster in the chain starting at the given cluster as free
+    pub(crate) fn free_cluster_chain<D>(
+        &mut self,
+        block_cache: &mut BlockCache<D>,
+        cluster: ClusterId,
+    ) -> Result<(), Error<D::Error>>
+    where
+        D: BlockDevice,
+    {
+        if cluster.0 < RESERVED_ENTRIES {
+            // there is no chain
+            return Ok(());
+        }
+        // free everything after the first cluster, then the first cluster
+        self.truncate_cluster_chain(block_cache, cluster)?;
+        self.update_fat(block_cache, cluster, ClusterId::EMPTY)?;
+        if let Some(ref mut number_free_cluster) = self.free_clusters_count {
+            *number_free_cluster += 1;
+        };
+        match self.next_free_cluster {
+            Some(next_free_cluster) if next_free_cluster.0 <= cluster.0 => {}
+            _ => self.next_free_cluster = Some(cluster),
+        }
+        Ok(())
+    }
+
     /// Writes a Directory Entry to the disk
     pub(crate) fn write_entry_to_disk<D>(
         &self,
